@@ -8,6 +8,7 @@ import json
 import multiprocessing as mp
 import os
 import random
+import shutil
 import subprocess
 import sys
 import threading
@@ -56,8 +57,13 @@ def _worker_init_inner(prop, tier, root, mode):
         while p in sys.path:
             sys.path.remove(p)
         sys.path.insert(0, p)
-    want = "1" if mode == "interp" else "0"
-    assert os.environ.get("NUMBA_DISABLE_JIT", "0") == want, "worker started in the wrong numba mode"
+    assert "numba" not in sys.modules, "numba imported before the worker could select its mode"
+    os.environ["NUMBA_DISABLE_JIT"] = "1" if mode == "interp" else "0"
+    os.environ["PYTHONWARNINGS"] = "ignore"
+    for k in ("OMP_NUM_THREADS", "OPENBLAS_NUM_THREADS", "MKL_NUM_THREADS"):
+        os.environ[k] = "1"
+    os.environ["PYTHONPATH"] = os.pathsep.join([root, VERIF])      # for grandchildren (fresh-interpreter oracle)
+    assert os.environ.get("PYTHONHASHSEED") == "0", "run through ./check (PYTHONHASHSEED=0 must be set at interpreter start)"
     try:
         import dask
         dask.config.set(scheduler="synchronous")
@@ -95,40 +101,15 @@ def _worker_run(task):
     return out.to_dict()
 
 
-_ENV_LOCK = threading.Lock()
-
-
 def _make_pool(prop, tier, mode, nproc, maxtasks=None):
-    # os.environ is process-global: confirmations run in threads, so the set-env / spawn / restore
-    # section must not interleave (a worker spawned with another thread's environment would start
-    # in the wrong numba mode).
-    with _ENV_LOCK:
-        return _make_pool_locked(prop, tier, mode, nproc, maxtasks)
-
-
-def _make_pool_locked(prop, tier, mode, nproc, maxtasks=None):
+    """Workers configure their own environment (numba mode, thread counts) in _worker_init BEFORE numba is
+    imported, so nothing process-global is mutated here: pools of different modes may coexist (confirmation
+    threads) and workers respawned later (maxtasksperchild) start in the right mode too."""
     ctx = mp.get_context("spawn")
-    saved = {k: os.environ.get(k) for k in
-             ("NUMBA_DISABLE_JIT", "PYTHONHASHSEED", "PYTHONPATH", "OMP_NUM_THREADS",
-              "OPENBLAS_NUM_THREADS", "MKL_NUM_THREADS", "PYTHONWARNINGS")}
-    root = repo_root()
-    os.environ["NUMBA_DISABLE_JIT"] = "1" if mode == "interp" else "0"
-    os.environ["PYTHONHASHSEED"] = "0"
-    os.environ["PYTHONWARNINGS"] = "ignore"
-    for k in ("OMP_NUM_THREADS", "OPENBLAS_NUM_THREADS", "MKL_NUM_THREADS"):
-        os.environ[k] = "1"
-    pp = [root, VERIF] + [p for p in os.environ.get("PYTHONPATH", "").split(os.pathsep) if p]
-    os.environ["PYTHONPATH"] = os.pathsep.join(dict.fromkeys(pp))
-    try:
-        pool = ctx.Pool(nproc, initializer=_worker_init, initargs=(prop, tier, root, mode),
-                        maxtasksperchild=maxtasks)
-    finally:
-        for k, v in saved.items():
-            if v is None:
-                os.environ.pop(k, None)
-            else:
-                os.environ[k] = v
-    return pool
+    os.environ["PYTHONHASHSEED"] = "0"      # read by the children at interpreter start
+    if maxtasks is None and getattr(check_module(prop), "FRESH_WORKERS", False):
+        maxtasks = 1      # every shard runs in a brand-new interpreter (history exploration)
+    return ctx.Pool(nproc, initializer=_worker_init, initargs=(prop, tier, repo_root(), mode), maxtasksperchild=maxtasks)
 
 
 # ------------------------------------------------------------------------------------------------
@@ -197,8 +178,8 @@ def explore(prop, tier, seed, nproc, only=None, budget=None, log=sys.stderr):
     per_space = {s.name: _new_acc() for s in spaces}
     harness_errors = []
     caps = []
-    for mode in ("jit", "interp"):
-        group = [s for s in spaces if s.mode == mode]
+    for phase, mode in [(ph, m) for ph in sorted({getattr(s, "phase", 0) for s in spaces}) for m in ("jit", "interp")]:
+        group = [s for s in spaces if s.mode == mode and getattr(s, "phase", 0) == phase]
         if not group:
             continue
         tasks = []
@@ -315,6 +296,16 @@ def run_check(prop, tier="quick", seed=0, nproc=None, only=None, budget=None, wr
     nproc = nproc or int(os.environ.get("XRMC_WORKERS", min(16, os.cpu_count() or 1)))
     root = repo_root()
     tree = _tree_id(root)
+    run_dir = os.path.join(VERIF, ".xrmc_tmp", "%s_%s_%d" % (prop, tier, os.getpid()))
+    os.makedirs(run_dir, exist_ok=True)
+    os.environ["XRMC_RUN_DIR"] = run_dir
+    try:
+        return _run_check(prop, tier, seed, nproc, only, budget, write, root, tree)
+    finally:
+        shutil.rmtree(run_dir, ignore_errors=True)
+
+
+def _run_check(prop, tier, seed, nproc, only, budget, write, root, tree):
     mod, spaces, per_space, herrs, caps, wall = explore(prop, tier, seed, nproc, only, budget)
     keys, sigs = findings_mod.load(prop)
 
